@@ -371,7 +371,7 @@ theorem readRecords_step {H : Nat × Nat → Prop} {opq : Nat → Rd Bytes} {buf
   · have hop := hup hu
     rw [if_neg (by intro hc; exact hc.1 hop)]
     simp only [Option.isSome_none, Bool.false_eq_true, ↓reduceIte]
-    rw [if_neg (by intro hc; rcases hc.2 with h1 | h1 | h1; exact hr.rtype.2.1 h1; exact hs1 h1; exact hs2 h1)]
+    rw [if_neg (by intro hc; rcases hc.2 with h1 | h1 | h1; exact hr.rtype.2 h1; exact hs1 h1; exact hs2 h1)]
     cases isAdd with
     | false => simpa using hrest
     | true =>
@@ -383,21 +383,24 @@ theorem readRecords_step {H : Nat × Nat → Prop} {opq : Nat → Rd Bytes} {buf
           cases hdd : r.rdata <;> rw [hdd] at hu h1 <;> simp [RData.isUpdate, RData.proved] at hu h1
       rw [hd]
       simp only
-      rw [if_neg hr.rtype.2.1]
+      rw [if_neg hr.rtype.2]
       exact hrest
   · rw [if_neg (by intro hc; exact hu hc.2.2)]
     simp only [Option.isSome_none, Bool.false_eq_true, ↓reduceIte]
-    rw [if_neg (by intro hc; rcases hc.2 with h1 | h1 | h1; exact hr.rtype.2.1 h1; exact hs1 h1; exact hs2 h1)]
+    rw [if_neg (by intro hc; rcases hc.2 with h1 | h1 | h1; exact hr.rtype.2 h1; exact hs1 h1; exact hs2 h1)]
     cases isAdd with
     | false => simpa using hrest
     | true =>
       simp only [Bool.not_true, Bool.false_eq_true, ↓reduceIte]
-      have hpv : r.rdata.proved = true := by
+      have hpv : r.rdata.proved = true ∧ r.rdata.typeOK r.rtype := by
         rcases hr.data with h1 | h1
         · exfalso; rw [h1] at hu; simp [RData.isUpdate] at hu
-        · exact h1.1
-      cases hdd : r.rdata <;> rw [hdd] at hpv <;> simp [RData.proved] at hpv <;>
-        simp only [Record.fq, hdd, RData.fq] <;> (simp only [Record.fq, hdd, RData.fq] at hrest; exact hrest)
+        · exact ⟨h1.1, h1.2.1⟩
+      obtain ⟨hpv, hty⟩ := hpv
+      cases hdd : r.rdata <;> rw [hdd] at hpv hty <;> simp [RData.proved] at hpv <;>
+        first
+        | (exfalso; exact hs2 hty.1)
+        | (simp only [Record.fq, hdd, RData.fq]; simp only [Record.fq, hdd, RData.fq] at hrest; exact hrest)
 
 /-- the record loop over a list of records' layouts, followed by whatever the remaining count reads -/
 theorem reads_records_then {H : Nat × Nat → Prop} {opq : Nat → Rd Bytes} {buf : Bytes} (isAdd : Bool) (op : Nat) :
